@@ -926,7 +926,7 @@ Proof.
 Qed.
 
 Lemma O_step_candidate r m r' c :
-  OInv r -> PC m -> snapq (m_snapshot m) ->
+  OInv r -> PC m -> (m_type m = MsgSnapshot -> snapq (m_snapshot m)) ->
   (r_state r = Candidate \/ r_state r = PreCandidate) ->
   step_candidate r m = Ok (r', c) -> OInv r'.
 Proof.
@@ -939,7 +939,8 @@ Proof.
     apply (OInv_become_follower r) in H1; [|exact HI|lia]. destruct H1 as (J1 & S1 & _).
     dtop H2; [eapply O_handle_append_entries; eassumption|].
     dtop H2; [eapply O_handle_heartbeat; eassumption|].
-    eapply O_handle_snapshot; eassumption. }
+    eapply O_handle_snapshot; try eassumption. apply Hsq.
+    cbn [orb] in Heqb0. apply N.eqb_eq. exact Heqb0. }
   dtop H; [|injection H as <- <-; exact HI].
   dtop H; [injection H as <- <-; exact HI|].
   ib H y Hy. destruct y as [rp res]. cbn [fst] in H. ib H z Hz. injection H as <- <-.
@@ -987,7 +988,7 @@ Proof.
 Qed.
 
 Lemma O_step_follower r m r' c :
-  OInv r -> PC m -> snapq (m_snapshot m) -> r_state r = Follower ->
+  OInv r -> PC m -> (m_type m = MsgSnapshot -> snapq (m_snapshot m)) -> r_state r = Follower ->
   step_follower r m = Ok (r', c) -> OInv r'.
 Proof.
   intros HI Pm Hsq Hf H. pose proof Pm as (_ & (N1 & _ & _ & _ & _ & N6 & N7) & _).
@@ -1000,9 +1001,11 @@ Proof.
     ib H y Hy. injection H as <- <-. eapply OInv_forward; [exact HI|left; exact E1|exact Hy]. }
   dtop H; [ib H y Hy; injection H as <- <-; eapply O_handle_append_entries; eassumption|].
   dtop H; [ib H y Hy; injection H as <- <-; eapply O_handle_heartbeat; eassumption|].
-  dtop H; [ib H y Hy; injection H as <- <-; eapply O_handle_snapshot; try eassumption; exact Hf|].
-  dtop H; [apply N.eqb_eq in Heqb2; contradiction|].
-  dtop H; [apply N.eqb_eq in Heqb3; contradiction|].
+  destruct (m_type m =? MsgSnapshot) eqn:E4.
+  { ib H y Hy. injection H as <- <-.
+    eapply (O_handle_snapshot _ m); [exact Hset|exact Hf|apply Hsq, N.eqb_eq, E4|exact Hy]. }
+  destruct (m_type m =? MsgTransferLeader) eqn:E5; [apply N.eqb_eq in E5; contradiction|].
+  destruct (m_type m =? MsgTimeoutNow) eqn:E6; [apply N.eqb_eq in E6; contradiction|].
   destruct (m_type m =? MsgReadIndex) eqn:E7.
   { apply N.eqb_eq in E7. dtop H; [injection H as <- <-; exact HI|].
     ib H y Hy. injection H as <- <-. eapply OInv_forward; [exact HI|right; exact E7|exact Hy]. }
@@ -1017,7 +1020,8 @@ Qed.
    become leader, and whatever it queues is of the pool class again - in particular
    [adv_ok] when addressed to a window member *)
 Theorem outsider_step r m r' c :
-  OInv r -> PC m -> snapq (m_snapshot m) -> step r m = Ok (r', c) -> OInv r'.
+  OInv r -> PC m -> (m_type m = MsgSnapshot -> snapq (m_snapshot m)) ->
+  step r m = Ok (r', c) -> OInv r'.
 Proof.
   intros HI Pm Hsq H. pose proof Pm as (P1 & (N1 & _) & _).
   rewrite step_eq in H. ib H pre Hpre. apply step_pre_cases in Hpre.
@@ -1334,7 +1338,7 @@ Definition restart_ok (O r : raft) : Prop :=
 
 Definition oact_ok (st : list raft * list msg) (a : oact) : Prop :=
   match a with
-  | OStep i m => In m (snd st) /\ snapq (m_snapshot m)
+  | OStep i m => In m (snd st) /\ (m_type m = MsgSnapshot -> snapq (m_snapshot m))
   | OTick i => True
   | ORestart i r => forall O, nth_error (fst st) i = Some O -> restart_ok O r
   end.
@@ -1637,7 +1641,7 @@ Proof. reflexivity. Qed.
 Lemma def_oact_ok ids l st a :
   oact_ok ids l st a <->
   match a with
-  | OStep i m => In m (snd st) /\ snapq ids l (m_snapshot m)
+  | OStep i m => In m (snd st) /\ (m_type m = MsgSnapshot -> snapq ids l (m_snapshot m))
   | OTick i => True
   | ORestart i r => forall O, nth_error (fst st) i = Some O -> restart_ok ids l O r
   end.
